@@ -713,14 +713,21 @@ class Server(BaseComponent):
 
     def _on_accept_done(self, sock, fire_connect_event=True):
         sock.setblocking(False)
+        peer = ()
+        if fire_connect_event:
+            try:
+                peer = sock.getpeername()
+            except OSError:
+                # errno 107 (ENOTCONN): the client has gone (reset) before it
+                # was accepted.  Nobody has seen a connect for it, so nobody is
+                # told about a disconnect either.
+                with contextlib.suppress(OSError):
+                    sock.close()
+                return
         self._poller.addReader(self, sock)
         self._clients.append(sock)
         if fire_connect_event:
-            try:
-                self.fire(connect(sock, *sock.getpeername()))
-            except OSError as exc:
-                # errno 107 (ENOTCONN): the client already disconnected
-                self._on_handshake_error(sock, exc)
+            self.fire(connect(sock, *peer))
 
     def _on_handshake_error(self, sock, err):
         self.fire(error(sock, err))
